@@ -1006,6 +1006,25 @@ func (nr *netRun) checkC08(x *xfer) {
 						}
 					}
 					if cause == "" {
+						// F14, general form: the latest restart decision before the forbidden progress predates the limit pause and
+						// was taken on a below-limit state, and the restart was still being carried out when the pause hit (the
+						// request it led to started - TransferInitiated / Opened / Restart announced - after the pause)
+						var last *ValCall
+						for i := range b.ValCalls {
+							vc := &b.ValCalls[i]
+							if vc.ChID == x.chid && vc.Kind == "restart" && vc.Life == life && vc.Step < e.Step {
+								last = vc
+							}
+						}
+						if last != nil && last.Step < pausedAt && last.PreOK && (last.Result.DataLimit == 0 || lim(last.Pre) < last.Result.DataLimit) {
+							for _, e2 := range evs {
+								if (e2.Code == datatransfer.TransferInitiated || e2.Code == datatransfer.Opened || e2.Code == datatransfer.Restart) && e2.Step >= pausedLB && e2.Step > last.Step && e2.Step < e.Step {
+									cause = "|restart-validated-before-the-limit-was-reached-and-carried-out-after"
+								}
+							}
+						}
+					}
+					if cause == "" {
 						// F15: a restart validated while paused at the limit: the new request is opened first and paused
 						// afterwards (receiveRequest: OpenChannel, then PauseChannel); a block that arrives in between is accounted
 						for _, tc := range b.TpCalls {
